@@ -296,6 +296,11 @@ def _run(prop, tier, ti, seed, a, scratch, t_start) -> int:
           + (f'; E2 {e2_res["discharged"]}/{e2_res["obligations"]} VCs' if e2_res else ''))
     for j, d in inconclusive:
         print(f'  inconclusive: {j.cond.name}: {(d or "")[:160]}')
+    for ob in (e2_res['results'] if e2_res else []):
+        if ob['status'] not in ('proved', 'violated'):
+            print(f'  inconclusive: e2:{ob["name"]}: {ob["status"]}: {ob.get("detail", "")[:160]}')
+        if ob.get('mutants_survived'):
+            print(f'  WARNING e2:{ob["name"]} mutants not refuted: {ob["mutants_survived"]}')
     for j, args, d in artefacts:
         print(f'  model artefact (discarded): {j.cond.name} {args!r}'[:200])
     if twins_bad:
